@@ -30,6 +30,7 @@ type Config struct {
 	Trace            bool
 	Verbose          bool
 	MapOrderReversed bool
+	NoPortfolio      bool // do not retry unknown answers with fresh solvers in other configurations
 	MapRotate        bool // fork over the rotation of every map iteration (first key is arbitrary)
 	NoMerge          bool
 	ReachTwin        bool // vacuity twin: every vp.Assert is replaced by assert(false)
@@ -87,6 +88,7 @@ type Stats struct {
 	AssertSat      int
 	AssertUnsat    int
 	AssertUnknown  int
+	PortfolioRescued int // queries the path's solver could not decide and a fresh solver in another configuration did
 	AssertConcrete int
 	Decisions      int
 	Steps          int64
@@ -210,6 +212,9 @@ func (e *Exec) checkWith(extra *Term) SatResult {
 	e.solver.Assert(extra)
 	r := e.solver.Check()
 	e.solver.Pop()
+	if r == Unknown {
+		r, _ = e.portfolio(extra)
+	}
 	return r
 }
 
